@@ -12,7 +12,8 @@ package main
 //   P h move buf            h.MovePreallocated(move, buf)     (buf: any other held object, live or dead)
 //   C h                     h.Clone()
 // CASE legal=<0|1> ; op ; op ... | per step: result and the observables of EVERY live handle | per step: slice headers of
-// every held object and the raw value of every live handle.  An observable that did not change since it was last printed
+// every held object (Height, Stacks, WhiteGroups, BlackGroups; each named by the object whose embedded array it points
+// into: the alias structure) and the raw value of every live handle.  An observable that did not change since it was last printed
 // for the same handle is printed as "=" (both sides do that on their own text).
 //
 // Direct oracle (no model involved): every live handle has a deep snapshot taken when it was created
@@ -63,6 +64,7 @@ type c09obj struct {
 	parent   int
 	bornStep int
 	moves    []tak.Move // legal moves at creation (for the generator)
+	asize    int        // board size the object was allocated with (selects its positionN struct type)
 }
 
 type c09fresh struct {
@@ -264,6 +266,38 @@ func (rn *c09run) hdr(s []uint64) string {
 	return fmt.Sprintf("%s.%d.%d", name, off, len(s))
 }
 
+// the Height / Stacks header of a held object, named by the object whose embedded array it points into:
+// H<k>.off.len / S<k>.off.len (".e" for an empty slice, "n" for nil, "?" if it points into no held object's array)
+func (rn *c09run) hdrHS(ptr uintptr, isNil bool, n int, stacks bool) string {
+	if isNil {
+		return "n"
+	}
+	name, off := "?", 0
+	for k, o := range rn.objs {
+		if o.p == nil {
+			continue
+		}
+		oh, ost, _ := tak.VerifOwnArrays(o.p, o.asize)
+		if stacks {
+			base := c09ptr(ost)
+			if ptr >= base && ptr < base+uintptr(8*len(ost)) {
+				name, off = "S"+strconv.Itoa(k), int(ptr-base)/8
+				break
+			}
+		} else {
+			base := c09ptrB(oh)
+			if ptr >= base && ptr < base+uintptr(len(oh)) {
+				name, off = "H"+strconv.Itoa(k), int(ptr-base)
+				break
+			}
+		}
+	}
+	if n == 0 {
+		return name + ".e"
+	}
+	return fmt.Sprintf("%s.%d.%d", name, off, n)
+}
+
 type c09range struct{ lo, hi uintptr }
 
 func rng8(p uintptr, n int, elem int) c09range {
@@ -324,7 +358,11 @@ func (rn *c09run) aliasOracle() {
 // ---------- running operations ----------
 
 func (rn *c09run) add(p *tak.Position, live bool, parent int) int {
-	rn.objs = append(rn.objs, &c09obj{p: p, live: live, parent: parent, bornStep: len(rn.ops) - 1})
+	o := &c09obj{p: p, live: live, parent: parent, bornStep: len(rn.ops) - 1}
+	if p != nil {
+		o.asize = p.Size()
+	}
+	rn.objs = append(rn.objs, o)
 	return len(rn.objs) - 1
 }
 
@@ -421,7 +459,10 @@ func (rn *c09run) observeAll(op c09op, res, created int) {
 			continue
 		}
 		a := o.p.Analysis()
-		s2 = append(s2, fmt.Sprintf("%d:w=%s,b=%s", k, rn.hdr(a.WhiteGroups), rn.hdr(a.BlackGroups)))
+		s2 = append(s2, fmt.Sprintf("%d:h=%s,s=%s,w=%s,b=%s", k,
+			rn.hdrHS(c09ptrB(o.p.Height), o.p.Height == nil, len(o.p.Height), false),
+			rn.hdrHS(c09ptr(o.p.Stacks), o.p.Stacks == nil, len(o.p.Stacks), true),
+			rn.hdr(a.WhiteGroups), rn.hdr(a.BlackGroups)))
 		if !o.live {
 			continue
 		}
